@@ -237,3 +237,23 @@ def xml_roundtrip_with_declaration(i: int, omit: bool) -> bool:
     from harness.common import XPathContext as _C, L as _L
     r = _L(T_XML17['rt'].evaluate(_C(doc, variables={'omit': True if omit else False})))
     return r == [True]
+
+
+T_XML17.update(parse_all({'rt_elem': 'for $e in //* return deep-equal(parse-xml(serialize($e))/*, $e)', 'twins': 'deep-equal(/*/b[1], /*/b[2])',
+                          'not_twins': 'deep-equal(/*/c[1], /*/c[2])'}))
+XML_TAIL_DOCS = ('<a><b>x</b>tail<b>x</b><c><b>x</b>t1</c><c><b>x</b>t2</c></a>', '<a>h<b k="1">x</b>\n  <b k="1">x</b>z<c>1</c><c>2</c></a>')
+
+
+@ob(budget=60, tbudget=300, kind='hunt', bound='2 documents whose elements have tails (index chosen by the solver): every ELEMENT node round-trips through '
+                                   'serialize / parse-xml under deep-equal, equal siblings with different tails are deep-equal, different ones are not '
+                                   '(expat is C code: bug-hunting)',
+    funcs=['elementpath/compare.py:deep_equal', 'elementpath/serialization.py:serialize_to_xml'])
+def element_roundtrip_ignores_own_tail(i: int) -> bool:
+    """
+    pre: 0 <= i <= 1
+    post: _
+    """
+    doc = _CET17.ElementTree(_CET17.XML(XML_TAIL_DOCS[1 if i == 1 else 0]))
+    from harness.common import XPathContext as _C, L as _L
+    r = _L(T_XML17['rt_elem'].evaluate(_C(doc, variables={'omit': True})))
+    return len(r) >= 5 and all(x is True for x in r) and _L(T_XML17['twins'].evaluate(_C(doc))) == [True] and _L(T_XML17['not_twins'].evaluate(_C(doc))) == [False]
